@@ -1,5 +1,6 @@
+\* as RangeSplit_unarrow, bounds 0..12
 CONSTANTS BODY = "B"  TNEG = 0  TMAX = 12  CNEG = 1000  CMAX = 1000  BNEG = 0  BHI = 12
-          MAXELEMS = 24  MAXPEERS = 6  REVERSED = FALSE  NEARMAX = FALSE  WRAPPED = TRUE
+          MAXELEMS = 24  MAXPEERS = 6  FIX_REVERSED = TRUE  FIX_CLAMP_START = TRUE  WRAPPED = TRUE
 SPECIFICATION Spec
 INVARIANTS C15_Range
 CHECK_DEADLOCK FALSE
